@@ -74,6 +74,10 @@ def run(check):
                       "events": len(res.get("events") or [])})
 
     with harness.Runner() as rn:
+
+        if not rn.hang_oracle_works():
+
+            check.fail_broken("the hang oracle (Go runtime deadlock report) does not fire in this build")
         runfam.run_and_monitor(check, rn, items, {"C01"}, on_result=on_result)
         check.extra["schedule_points_total"] = len(rn.points)
     check.extra["distinct_plugin_event_orders"] = len(orders)
